@@ -89,6 +89,18 @@ def pel_specs():
     specs['iodrawer'] = {'creator': 'M', 'eid': 0x50000010, 'sections': [
         {'t': 'UD', 'comp': 0x2C00, 'sub': 73, 'ver': 1, 'payload': '8ADF0F19010000DE'},
         {'t': 'UD', 'comp': 0x2C00, 'sub': 72, 'ver': 9, 'payload': '0102'}]}
+    # I/O drawer logs whose PTEs match several entries of the (shared, shipped) table: the last one of the first log hits the
+    # wildcard entry EA0884**, the first one of the second log has an exact entry EA088403 ahead of that wildcard; the
+    # third repeats both in one log and adds a trace / a history log decoded with the shared string file / field table
+    specs['iodrawer_wild'] = {'creator': 'M', 'eid': 0x50000025, 'sections': [
+        {'t': 'UD', 'comp': 0x2C00, 'sub': 73, 'ver': 1, 'payload': '000100020100000000020003EA088410'}]}
+    specs['iodrawer_exact'] = {'creator': 'M', 'eid': 0x50000026, 'sections': [
+        {'t': 'UD', 'comp': 0x2C00, 'sub': 73, 'ver': 1, 'payload': '00030004EA0884030004000515BC0102'}]}
+    specs['iodrawer_mixed'] = {'creator': 'M', 'eid': 0x50000027, 'sections': [
+        {'t': 'UD', 'comp': 0x2C00, 'sub': 73, 'ver': 2, 'payload': '00050006EA08841000060007EA088403'},
+        {'t': 'UD', 'comp': 0x2C00, 'sub': 73, 'ver': 2, 'payload': '00070008EA088403'},
+        {'t': 'UD', 'comp': 0x2C00, 'sub': 72, 'ver': 1, 'payload': '0102030405060708090a'},
+        {'t': 'ED', 'creator': 'M', 'comp': 0x2C00, 'sub': 73, 'ver': 1, 'payload': '00080009EA088403'}]}
     # pairs that share one component of a parser-cache key but differ in another (creator vs component vs code type)
     specs['o_bc_e5'] = {'creator': 'O', 'eid': 0x50000011, 'sections': [{'t': 'PS', 'ascii': 'BC8AE510'.ljust(32)}]}
     specs['o_bd_2a'] = {'creator': 'O', 'eid': 0x50000012, 'sections': [{'t': 'PS', 'ascii': 'BD2A1234'.ljust(32), 'callouts': [mru2]},
